@@ -56,10 +56,25 @@ impl LspProject {
                     .collect());
             }
 
+            // The protocol encodes each token's position relative to the previous token:
+            // the line as a difference and the start character as a difference only when
+            // both tokens are on the same line.
+            let mut prev_line = 0;
+            let mut prev_start = 0;
             return Ok(result
                 .0
                 .into_iter()
                 .filter_map(|tok| LspTokenType(tok).into())
+                .map(|mut tok: SemanticToken| {
+                    let (line, start) = (tok.delta_line, tok.delta_start);
+                    if line == prev_line {
+                        tok.delta_start = start - prev_start;
+                    }
+                    tok.delta_line = line - prev_line;
+                    prev_line = line;
+                    prev_start = start;
+                    tok
+                })
                 .collect());
         } else {
             error!("URL must be convertible to a file path {}", url);
